@@ -515,12 +515,13 @@ def direct_layers(ctx, seed):
     from rsome import lp as lpm, socp as socpm, gcp as gcpm
     r = np.random.default_rng(seed)
     layer = str(r.choice(['lp', 'socp', 'gcp', 'gcp']))
-    kinds = {'lp': ['row', 'bound', 'abs'], 'socp': ['row', 'bound', 'norm2', 'sumsqr'],
-             'gcp': ['row', 'bound', 'norm2', 'exp', 'log', 'entropy', 'kl', 'expcone']}[layer]
+    kinds = {'lp': ['row', 'bound', 'abs'], 'socp': ['row', 'bound', 'abs', 'norm2', 'sumsqr', 'square'],
+             'gcp': ['row', 'bound', 'abs', 'norm2', 'sumsqr', 'exp', 'log', 'entropy', 'kl', 'expcone']}[layer]
+    objective = str(r.choice(['affine', 'affine', 'sumsqr', 'norm2'])) if layer != 'lp' else 'affine'
     first = [str(v) for v in r.choice(kinds, int(r.integers(1, 3)))]
     second = str(r.choice(kinds))
     ctx.search_cases += 1; ctx.evaluations += 1
-    case = {"layer": layer, "first": first, "then": second, "seed": seed}
+    case = {"layer": layer, "first": first, "then": second, "seed": seed, "objective": objective}
 
     def add(m, x, t, kind, i):
         if kind == 'row':
@@ -533,6 +534,8 @@ def direct_layers(ctx, seed):
             m.st(rso.norm(x, 2) <= 3 + i)
         elif kind == 'sumsqr':
             m.st(rso.sumsqr(x) <= 8 + i)
+        elif kind == 'square':
+            m.st(rso.square(x[1]) <= 6 + i)
         elif kind == 'exp':
             m.st(rso.exp(x[0]) <= t + i)
         elif kind == 'log':
@@ -547,7 +550,8 @@ def direct_layers(ctx, seed):
     def fresh():
         M = {'lp': lpm, 'socp': socpm, 'gcp': gcpm}[layer].Model()
         x = M.dvar(2); t = M.dvar()
-        M.min(t - x[0]); M.st([x >= -3, x <= 3, t >= -5, t <= 50])
+        M.min((t - x[0]) + (rso.sumsqr(x) if objective == 'sumsqr' else (rso.norm(x, 2) if objective == 'norm2' else 0)))
+        M.st([x >= -3, x <= 3, t >= -5, t <= 50])
         return M, x, t
     try:
         with C.quiet():
